@@ -11,7 +11,7 @@ CONSTANTS
   Ctxs <- CtxOne
   WorldsOf <- WorldsOne
   PutArgs <- PutOne
-  ChunkSize = 3
+  ChunkSize = 8
   MaxRetries = 1
   Alpha <- AlphaWhole
   RefreshAlpha <- ROk
